@@ -5386,8 +5386,13 @@ int64_t ExpressionEvaluator::evaluate_function_call_impl(const ASTNode *node) {
                             param_var.str_value = arg->str_value;
                             // value
                             // フィールドにもポインタを保存（generic型で使用される）
-                            param_var.value = reinterpret_cast<int64_t>(
-                                strdup(param_var.str_value.c_str()));
+                            // （空文字列にはコピーを作らない:
+                            // 生バッファと区別するため）
+                            param_var.value =
+                                param_var.str_value.empty()
+                                    ? 0
+                                    : reinterpret_cast<int64_t>(strdup(
+                                          param_var.str_value.c_str()));
                             param_var.is_assigned = true;
                             param_var.is_const =
                                 param->is_const; // パラメータのconst修飾を保持
@@ -5495,8 +5500,13 @@ int64_t ExpressionEvaluator::evaluate_function_call_impl(const ASTNode *node) {
                                 temp.str_value = arg->str_value;
                                 // value
                                 // フィールドにもポインタを保存（generic型で使用される）
-                                temp.value = reinterpret_cast<int64_t>(
-                                    strdup(temp.str_value.c_str()));
+                                // （空文字列にはコピーを作らない:
+                                // 生バッファと区別するため）
+                                temp.value =
+                                    temp.str_value.empty()
+                                        ? 0
+                                        : reinterpret_cast<int64_t>(strdup(
+                                              temp.str_value.c_str()));
                                 temp.is_assigned = true;
                                 temp.struct_type_name = "string";
                                 assign_interface_argument(temp, "");
